@@ -87,13 +87,6 @@ Lemma fast_path_needs_non_iden_quote :
   must_be_valid_iden [97; 95] = true /\ fast_prepare 95 [97; 95] <> iden_prepare 95 [97; 95].
 Proof. split; [reflexivity|discriminate]. Qed.
 
-Lemma fmt_literal_valid name :
-  Forall (fun c => is_iden_char c = true) name -> fmt_literal name = Some name.
-Proof.
-  induction 1 as [|c s Hc _ IH]; [reflexivity|].
-  cbn [fmt_literal]. rewrite (iden_char_not_brace c Hc), IH. reflexivity.
-Qed.
-
 Lemma variant_is_valid_arm tn var :
   variant_is_valid tn var = true ->
   exists s, variant_arm tn var = Some (NLit s) /\ must_be_valid_iden s = true.
@@ -116,7 +109,7 @@ Proof.
     intros [= <-]. exact Hs.
   - destruct v as [|i inner]; cbn [unquoted]; [|discriminate].
     destruct (get_table_name ident attrs) as [tn|]; [|discriminate].
-    intros Hv. rewrite (fmt_literal_valid tn (valid_iden_chars tn Hv)). intros [= <-]. exact Hv.
+    intros Hv [= <-]. exact Hv.
 Qed.
 
 Theorem derived_prepare_is_general menv t v q :
@@ -500,27 +493,28 @@ Proof.
   unfold is_ascii_alphanumeric. rewrite H. exact H.
 Qed.
 
-(* an un-renamed variant whose identifier starts with a letter (and is not `Table`) is valid *)
-Theorem unrenamed_variant_valid tn ident c t :
-  ident = c :: t -> is_ascii_alphabetic c = true -> str_eqb ident TABLE = false ->
+(* an un-renamed variant (not `Table`) whose name, without a raw prefix, has a letter as its first
+   letter-or-digit is valid *)
+Theorem unrenamed_variant_valid tn ident :
+  str_eqb ident TABLE = false -> first_alnum_is_letter (unraw ident) ->
   variant_valid tn ident None = true.
 Proof.
-  intros -> Hc Ht. cbn [variant_valid]. unfold table_or_snake_case. rewrite Ht.
-  apply snake_names_take_fast_path. now apply letter_first_is_letter.
+  intros Ht Hf. cbn [variant_valid]. unfold table_or_snake_case. rewrite Ht.
+  now apply snake_names_take_fast_path.
 Qed.
 
 (* ---------------------------------------------------------------------------------------------- *)
 (* (b) the naming function against the documented naming *)
 
 Definition spec_table_name (type_name : str) (type_rename : option str) : str :=
-  match type_rename with Some r => r | None => snake_case type_name end.
+  match type_rename with Some r => r | None => snake_case (unraw type_name) end.
 
 Definition spec_variant_name (type_name : str) (type_rename : option str)
            (variant_name : str) (variant_rename : option str) : str :=
   match variant_rename with
   | Some r => r
   | None => if str_eqb variant_name TABLE then spec_table_name type_name type_rename
-            else snake_case variant_name
+            else snake_case (unraw variant_name)
   end.
 
 Lemma get_table_name_spec ident attrs crename :
@@ -566,15 +560,10 @@ Qed.
 
 Theorem derived_unit_struct_name menv ident attrs crename :
   parsed_attr attrs = Some (option_map Rename crename) ->
-  Forall (fun c => c <> 123 /\ c <> 125) (spec_table_name ident crename) ->
   unquoted menv (DUnit ident attrs) VUnit = Some (spec_table_name ident crename)
   /\ as_str menv (DUnit ident attrs) VUnit = Some (spec_table_name ident crename).
 Proof.
-  intros Hc Hb. cbn [unquoted as_str]. rewrite (get_table_name_spec ident attrs crename Hc).
-  split; [|reflexivity].
-  induction Hb as [|c s [H1 H2] _ IH]; [reflexivity|].
-  cbn [fmt_literal]. destruct (N.eqb_spec c 123); [contradiction|].
-  destruct (N.eqb_spec c 125); [contradiction|]. cbn [orb]. now rewrite IH.
+  intros Hc. cbn [unquoted as_str]. now rewrite (get_table_name_spec ident attrs crename Hc).
 Qed.
 
 (* which attribute counts: the first one; in a list form the last item *)
@@ -591,10 +580,11 @@ Qed.
 
 Theorem enum_def_naming a ident fs :
   enum_def_name a ident = or_default (ed_prefix a) [] ++ unraw ident ++ or_default (ed_suffix a) DEFAULT_SUFFIX
-  /\ enum_def_variants fs = TABLE :: map pascal_case fs
+  /\ enum_def_variants fs = TABLE :: map (fun f => pascal_case (unraw f)) fs
   /\ (forall menv inner, unquoted menv (DEnumDef a ident fs) (VVariant 0 inner)
-        = Some (match ed_table_name a with Some t => t | None => snake_case ident end))
-  /\ (forall menv inner k, unquoted menv (DEnumDef a ident fs) (VVariant (S k) inner) = nth_error fs k)
+        = Some (match ed_table_name a with Some t => t | None => snake_case (unraw ident) end))
+  /\ (forall menv inner k, unquoted menv (DEnumDef a ident fs) (VVariant (S k) inner)
+        = option_map unraw (nth_error fs k))
   /\ (forall menv v, as_str menv (DEnumDef a ident fs) v = unquoted menv (DEnumDef a ident fs) v).
 Proof. repeat split; try reflexivity. intros menv v. now destruct v. Qed.
 
